@@ -242,6 +242,7 @@ def c08(tier, seed):
     if tier == "quick":
         return [
             Run("order", "debug", [], shards=4),
+            Run("order", "release", [], shards=4),
             Run("order", "miri", ["--maxn", "5"], shards=16, label="order/miri(N<=5)"),
         ]
     return [
@@ -263,6 +264,7 @@ def c14(tier, seed):
         return [
             Run("hex", "debug", ["--maxn", "4096"], shards=4, label="hex/debug(default)"),
             Run("hex", "fhex-debug", ["--maxn", "4096"], shards=4, label="hex/debug(faster-hex)"),
+            Run("hex", "fhex-release", ["--maxn", "4096"], shards=4, label="hex/release(faster-hex)"),
             Run("hex", "miri", ["--maxn", "17"], shards=12, label="hex/miri(fallback,N<=17)"),
             Run("hex", "miri", ["--maxn", "4096", "only_big=1", "big_n=1025"], shards=16, label="hex/miri(fallback,N=1025)"),
         ]
